@@ -169,6 +169,13 @@ func (h *DirHandler) GetOutbound(fws ...fbb.Address) []*fbb.Message {
 			continue
 		}
 
+		p2pOnly := m.Header.Get("X-P2POnly") == "true"
+
+		// Remove private headers
+		m.Header.Del("X-P2POnly")
+		m.Header.Del("X-FilePath")
+		m.Header.Del("X-Unread")
+
 		// Check unsent messages that are addressed to one of the
 		// forwarder addresses of the remote.
 		if len(fws) > 0 {
@@ -181,14 +188,9 @@ func (h *DirHandler) GetOutbound(fws ...fbb.Address) []*fbb.Message {
 			continue
 		}
 
-		if len(fws) == 0 && m.Header.Get("X-P2POnly") == "true" {
+		if len(fws) == 0 && p2pOnly {
 			continue // The message is P2POnly and remote is CMS
 		}
-
-		// Remove private headers
-		m.Header.Del("X-P2POnly")
-		m.Header.Del("X-FilePath")
-		m.Header.Del("X-Unread")
 
 		deliver = append(deliver, m)
 	}
